@@ -29,7 +29,8 @@ class Prop(Check):
     ]
     DRIVER = "Drivers/Positions.lean"
     QUICK_CASES = 420
-    THOROUGH_CASES = 15000
+    THOROUGH_CASES = 30000
+    PROCS_THOROUGH = 4  # builders share the machine; raise together with THOROUGH_CASES on a free one
     RULE = ("valid projects of 1..4 files with plain / qualified references (optionally with blanks around the dots), "
             "reference lists, random postponement schedules (0..3 rounds), nested objects sharing start or span, "
             "packages, imports; non-trivial = some reference is resolved after a textually later one of its file, or a "
